@@ -623,6 +623,32 @@ def ksc_inc(T, BB):
     return ('#define KSC_BLOCKS(M) %s\n#define KSC_ROWS(M) %s\n#define KSC_MASK(j, h) (%s)\n' % (' '.join('M(%d)' % q for q in range(T)), rows, mask))
 
 
+def sampler_state_scan(group):
+    """static (syntactic) fact behind "re-seeding with the same seed reproduces the same keys and ciphertexts": libstdc++'s normal_distribution
+    caches its second Box-Muller value inside the OBJECT, so a normal_distribution that outlives a call (file scope or `static` local) carries
+    randomness across tfhe_random_generator_setSeed.  Every normal_distribution declared in src/libtfhe must therefore be an automatic local.
+    (uniform_int_distribution keeps no state between draws; the three file-scope uniform objects are fine.)"""
+    out = []
+    nfound = 0
+    for f in sorted(os.listdir(X.SRC)):
+        if not f.endswith('.cpp'):
+            continue
+        src = open(os.path.join(X.SRC, f), 'rb').read().decode('latin-1')
+        code = re.sub(r'/\*.*?\*/', lambda m: ' ' * len(m.group(0)), src, flags=re.S)
+        code = re.sub(r'//[^\n]*', lambda m: ' ' * len(m.group(0)), code)
+        for m in re.finditer(r'\b((?:static|thread_local|extern)\s+)?(?:std::)?normal_distribution\s*<[^>]*>\s*(\w+)', code):
+            nfound += 1
+            depth = code.count('{', 0, m.start()) - code.count('}', 0, m.start())
+            persistent = depth == 0 or bool(m.group(1))
+            line = code.count('\n', 0, m.start()) + 1
+            out.append(('%s.%s.line%d.automatic' % (f, m.group(2), line), not persistent,
+                        'static fact: normal_distribution object `%s` (%s:%d) is %s' % (m.group(2), f, line,
+                        'an automatic local: its cached value cannot survive a re-seed' if not persistent else 'PERSISTENT (file scope / static): its cached second value survives tfhe_random_generator_setSeed, so the same seed no longer reproduces the same samples after an odd number of draws')))
+    if nfound == 0:
+        raise X.ExtractionError('no normal_distribution declaration found in src/libtfhe (the gaussian sampler moved?)')
+    return out
+
+
 def c07_groups(tier, tag='C07'):
     gs = enc_groups(tag)
     gs.append(Group(tag + '.tfhe_createLweBootstrappingKey', 'c03_encrypt.c', 'h_createBootstrappingKey', extract=[(BN_, 'tfhe_createLweBootstrappingKey')],
@@ -649,6 +675,9 @@ def c07_groups(tier, tag='C07'):
     gs.append(Group(tag + '.new_random_gate_bootstrapping_secret_keyset', 'c03_encrypt.c', 'h_keysetgen',
                     extract=[(GBS, 'TFheGateBootstrappingCloudKeySet::TFheGateBootstrappingCloudKeySet'), (GBS, 'TFheGateBootstrappingSecretKeySet::TFheGateBootstrappingSecretKeySet'),
                              (GB, 'new_random_gate_bootstrapping_secret_keyset')], defines={'H_KEYSETGEN': None}, unwind=14))
+    sg = StaticGroup(tag + '.static.no_persistent_gaussian_sampler', sampler_state_scan)
+    sg.replay = ('keygen', 'reseed')
+    gs.append(sg)
     for A in ['0x1p-25', '7.18e-9']:
         gs.append(Group('%s.tLweSymEncryptZero.alpha=%s' % (tag, A), 'c03_encrypt.c', 'h_tLweSymEncryptZero', extract=[(TL, 'tLweSymEncryptZero')],
                         loops=True, defines={'H_TLWEZERO': None, 'VERIF_ALPHA': A}, instance={'alpha': A}))
